@@ -11,6 +11,11 @@ type Tag struct {
 	Name              TagName
 	Title             string
 	Description       *string
+
+	// implicit is true for a tag that stands for a path ("/cats" of GET /cats/1) and was
+	// not declared by a TAG directive: it exists only from the first interaction of that
+	// path on, so a Tags directive cannot name it.
+	implicit bool
 }
 
 var _ json.Marshaler = &Tags{}
@@ -31,6 +36,7 @@ func newPathTag(r InteractionID) *Tag {
 		Children:          &Tags{},
 		Title:             title,
 		Name:              tagName(title),
+		implicit:          true,
 	}
 }
 
